@@ -80,6 +80,9 @@ class C07System(BuilderSystem):
         for v in (g2, g0):
             ops += [["tool_on", ["clockwise", v]], ["tool_on", ["ccw", v]], ["power_on", ["constant", v]],
                     ["power_on", ["dynamic", v]]]
+        # non-finite values are refused: the state keeps mirroring the (unchanged) program
+        ops += [["tool_on", ["clockwise", "nan"]], ["power_on", ["constant", "inf"]], ["set_tool_power", ["nan"]], ["set_feed_rate", ["nan"]],
+                ["set_bed_temperature", ["nan"]], ["move", [], {"x": 1, "S": "nan"}]]
         ops += [["tool_off"], ["power_off"], ["coolant_on", ["mist"]], ["coolant_on", ["flood"]], ["coolant_off"],
                 ["tool_change", ["manual", 1]], ["tool_change", ["automatic", 12]]]
         ops += [["move", [], {"x": 1, "F": g3}], ["move", [], {"y": 1, "F": g0}], ["move", [], {"x": 2, "S": g1}],
